@@ -397,3 +397,31 @@ package authenticode
 //@   on call (*archive/tar.Writer).WriteHeader(_, _) ret (e): hdrs = hdrs + 1
 //@   before call (*archive/tar.Writer).Write(w, p): assert @content_follows_its_header w == tw && sameslice(p, contents) && hdrs == 1
 //@   modifies any bytes.Buffer, any tar.Writer
+//@
+//@ func prehashMsiDirent
+//@   property C11
+//@   nopanic
+//@   requires item != nil && d != nil
+//@   allocbound 0 128
+//@   modifies sink d
+//@
+//@ func prehashMsiDir
+//@   property C11 C09
+//@   nopanic
+//@   requires comdoc.cdfOK(cdf) && parent != nil && d != nil
+//@   before call prehashMsiDir(c, it, w): assert @sub_storages_are_hashed_from_the_same_document_into_the_same_digest c == cdf && w == d
+//@   loop 0 sig "for _, item := range files" invariant comdoc.cdfOK(cdf) && forall(k, 0, len(files), files[k] != nil)
+//@   modifies sink d
+//@
+//@ func hashMsiDir
+//@   property C11 C09
+//@   nopanic
+//@   requires comdoc.cdfOK(cdf) && parent != nil && d != nil
+//@   before call hashMsiDir(c, it, w): assert @sub_storages_are_hashed_from_the_same_document_into_the_same_digest c == cdf && w == d
+//@   before call (*comdoc.ComDoc).ReadStream(c, it): assert @streams_are_read_from_the_document_being_hashed c == cdf
+//@   before call io.Copy(dst, _): assert @stream_bytes_go_to_the_digest dst == d
+//@   ghost uid bool = false
+//@   on call invoke io.Writer.Write(w, p) ret (n, e): uid = uid || (w == d && len(p) == 16)
+//@   ensures @every_storage_is_followed_by_its_class_id ret0 == nil ==> uid
+//@   loop 0 sig "for _, item := range files" invariant comdoc.cdfOK(cdf) && forall(k, 0, len(files), files[k] != nil) && !uid
+//@   modifies sink d
